@@ -161,3 +161,24 @@ prop(
         "'parent has none' means the descriptor is closed (close or fclose) at the time of the call",
     ],
 )
+
+prop(
+    "C11",
+    title="The child inherits no descriptor besides its three streams and the exit handle",
+    level="exploration",
+    engine="real",
+    campaigns=[dict(bin="C11", random=dict(quick=4000, thorough=80000))],
+    level_text=("Generated sets of extra parent descriptors (single, dense ranges, hundreds; always trying limit-1 and limit-2; files, pipes, sockets, "
+                "eventfds, directories; with and without close-on-exec) under generated RLIMIT_NOFILE soft limits (16 ... 4096, thorough 20000) and generated redirect "
+                "configurations; the oracle is the child's own /proc/self/fd listing at entry = {0, 1, 2, one write end of a pipe the parent holds}. Sampling."),
+    level_note="Trusts the puppet's /proc/self/fd snapshot taken before it opens anything. Concurrent starts from several threads are exercised by the C20 engine (same oracle).",
+    technique="property-based testing (rapidcheck tape) with real child processes; oracle = the child's own descriptor listing",
+    rule=("limit from {16,20,24,32,64,100,256,1024,4096(,8192,20000)}; extras: none / 1-6 random / dense range of 1-40 / many (to 1000), plus limit-1 (p=2/3) and limit-2 (p=1/2); "
+          "kind and close-on-exec per descriptor; redirect plan random incl. shorthands and start-up input. Non-trivial: an inheritable (no close-on-exec) descriptor >= 3 existed, or the highest "
+          "permitted number was open and inheritable. Distinct: hash of limit, descriptor numbers and the redirect plan."),
+    essential=dict(quick=["inheritable-extra-descriptor", "highest-permitted-descriptor-open", "hundreds-of-descriptors", "tiny-limit", "large-limit"]),
+    assumptions=[
+        "descriptors at or above the soft limit (possible only if the limit was lowered after opening them) are outside the property's 'up to the descriptor limit'",
+        "the refusal branch for limits above 1 048 576 is reached by a getrlimit value fault in C04, not here",
+    ],
+)
